@@ -37,8 +37,11 @@ type sCase struct {
 	Batch   int      `json:"max_batch_size"`
 	Mode    string   `json:"mode"` // stream | sync
 	Series  []uint64 `json:"query_series"`
-	Got     string   `json:"got,omitempty"`
-	Want    string   `json:"want,omitempty"`
+	// Labels (section sidxdup only): Labels[i] is the payload label of entry i ("p<label>"); entries with equal labels
+	// carry byte-identical payloads. Empty = every entry has its own payload "e<i>".
+	Labels []int  `json:"labels,omitempty"`
+	Got    string `json:"got,omitempty"`
+	Want   string `json:"want,omitempty"`
 }
 
 const sidxMaxKey = 4
@@ -83,6 +86,10 @@ func layoutsFor(parts int, full bool) []string {
 func payload(i int) []byte { return []byte("e" + strconv.Itoa(i)) }
 
 func buildSidx(dir string, entries []sEntry, layout string) (sidx.SIDX, error) {
+	return buildSidxP(dir, entries, layout, payload)
+}
+
+func buildSidxP(dir string, entries []sEntry, layout string, payload func(int) []byte) (sidx.SIDX, error) {
 	s, err := sidx.NewSIDX(sidxFS, &sidx.Options{Path: dir, Memory: protector.Nop{}})
 	if err != nil {
 		return nil, err
